@@ -41,8 +41,12 @@ Definition CARD : string := "urn:ietf:params:xml:ns:carddav".
     - [LPanic]: the iCalendar or vCard decoder panics on this text (go-ical does on some
       malformed content lines; since the repair c4d1d95 the caldav client turns that into an
       error, the carddav client calls go-vcard unguarded);
+    - [LVal v], [LIntV neg v]: as [LGood] / [LInt neg], with the decoded value in a canonical
+      rendering (entity tag unquoted, time in Unix seconds, integer in decimal, a string field's
+      character data, the names of a component set): what the client hands out as metadata;
     - [LNone]: no codec applies to this element. *)
-Inductive leaf := LNone | LBad | LEmpty | LCode (c : N) | LPath (p : string) | LInt (neg : bool) | LGood | LPanic.
+Inductive leaf := LNone | LBad | LEmpty | LCode (c : N) | LPath (p : string) | LInt (neg : bool) | LGood | LPanic
+| LVal (v : string) | LIntV (neg : bool) (v : string).
 
 (** Only elements: character data is represented by [ann] alone, comments, processing
     instructions and directives are invisible to the struct mapping. *)
@@ -181,10 +185,10 @@ Definition dec_homeset (t : xtree) : option string := foldo home_step (xkids t) 
 Definition dec_restype (t : xtree) : option (list qname) := Some (map xname (xkids t)).
 (** GetContentLength, maxResourceSize: int64 chardata; the sign is kept *)
 Definition dec_int (t : xtree) : option bool :=
-  match xann t with LInt neg => Some neg | _ => None end.
+  match xann t with LInt neg => Some neg | LIntV neg _ => Some neg | _ => None end.
 (** GetLastModified, GetETag: TextUnmarshaler chardata *)
 Definition dec_good (t : xtree) : option unit :=
-  match xann t with LGood => Some tt | _ => None end.
+  match xann t with LGood => Some tt | LVal _ => Some tt | _ => None end.
 (** GetContentType, DisplayName, descriptions, calendar-data / address-data ([]byte): never fail *)
 Definition dec_any (t : xtree) : option unit := Some tt.
 
@@ -552,6 +556,56 @@ Definition sync_collection (path : string) (s : script) : cres value :=
   cdo l <- collect (sync_one path) ms;
   COk (VSync (sync_deleted l) (sync_updated l)).
 
+(** * Metadata of the objects handed out
+
+    Each loop iteration declares its decode targets afresh (`var getETag internal.GetETag` ...),
+    DecodeProp fills them, and a tolerated failure (404) leaves the zero value: [field] is the
+    content of such a variable after the call, in the rendering of [LVal] / [LIntV]. *)
+Definition val_of (a : leaf) : string :=
+  match a with LVal v => v | LIntV _ v => v | _ => "" end.
+Definition dec_val (t : xtree) : option string := Some (val_of (xann t)).
+Definition field (r : response) (n : qname) (zero : string) : string :=
+  match decode_prop r n dec_val with COk v => v | _ => zero end.
+(** Go's zero time.Time in Unix seconds *)
+Definition zero_time : string := "-62135596800".
+
+(** CalendarObject / AddressObject: ETag, ModTime, ContentLength *)
+Definition object_meta (r : response) : list string :=
+  [field r n_getetag ""; field r n_getlastmodified zero_time; field r n_getcontentlength "0"].
+(** Calendar / AddressBook: Name, Description, MaxResourceSize, SupportedComponentSet / SupportedAddressData *)
+Definition collection_meta (n_desc n_size n_supp : qname) (r : response) : list string :=
+  [field r n_displayname ""; field r n_desc ""; field r n_size "0"; field r n_supp ""].
+(** SyncResponse.Updated: ModTime, ETag *)
+Definition sync_meta (r : response) : list string :=
+  [field r n_getlastmodified zero_time; field r n_getetag ""].
+
+(** the metadata of the entries for which the loop body appended an object *)
+Definition collect_meta {A} (f : response -> cres (option A)) (sel : A -> bool)
+           (mf : response -> list string) (l : list response) : list (list string) :=
+  flat_map (fun r => match f r with COk (Some a) => if sel a then [mf r] else [] | _ => [] end) l.
+
+Definition is_updated (i : sync_item) : bool := match i with SUpdated _ => true | SDeleted _ => false end.
+
+Definition run_meta (m : meth) (path : string) (s : script) : list (list string) :=
+  match do_multistatus s with
+  | COk ms =>
+    match m with
+    | MQueryCalendar | MMultiGetCalendar =>
+      collect_meta (object_item true n_cal_data) (fun _ => true) object_meta ms
+    | MQueryAddressBook | MMultiGetAddressBook =>
+      collect_meta (object_item false n_card_data) (fun _ => true) object_meta ms
+    | MFindCalendars =>
+      collect_meta (collection_item n_calendar n_cal_desc n_cal_size n_cal_supp dec_compset) (fun _ => true)
+                   (collection_meta n_cal_desc n_cal_size n_cal_supp) ms
+    | MFindAddressBooks =>
+      collect_meta (collection_item n_addressbook n_card_desc n_card_size n_card_supp dec_addrdata) (fun _ => true)
+                   (collection_meta n_card_desc n_card_size n_card_supp) ms
+    | MSyncCollection => collect_meta (sync_one path) is_updated sync_meta ms
+    | _ => []
+    end
+  | _ => []
+  end.
+
 (** Every public client method: [path] is the path argument of the call. *)
 Definition run (m : meth) (path : string) (s : script) : cres value :=
   match m with
@@ -771,6 +825,30 @@ Definition spec_value (m : meth) (path : string) (r : hresp) : value :=
     end
   end.
 
+(** The metadata a successful call hands out with each object: the value the multi-status
+    reports for THAT resource with a success status, else the zero value — never another
+    resource's. *)
+Definition spec_field (r : response) (n : qname) (zero : string) : string :=
+  if prop_good r n dec_val then
+    match the_value r n dec_val with Some v => v | None => zero end
+  else zero.
+Definition spec_object_meta (r : response) : list string :=
+  [spec_field r n_getetag ""; spec_field r n_getlastmodified zero_time; spec_field r n_getcontentlength "0"].
+Definition spec_collection_meta (n_desc n_size n_supp : qname) (r : response) : list string :=
+  [spec_field r n_displayname ""; spec_field r n_desc ""; spec_field r n_size "0"; spec_field r n_supp ""].
+Definition spec_sync_meta (r : response) : list string :=
+  [spec_field r n_getlastmodified zero_time; spec_field r n_getetag ""].
+
+Definition spec_meta (m : meth) (path : string) (r : hresp) : list (list string) :=
+  let ms := match spec_ms r with Some l => l | None => [] end in
+  match m with
+  | MQueryCalendar | MMultiGetCalendar | MQueryAddressBook | MMultiGetAddressBook => map spec_object_meta ms
+  | MFindCalendars => map (spec_collection_meta n_cal_desc n_cal_size n_cal_supp) (filter (has_type n_calendar) ms)
+  | MFindAddressBooks => map (spec_collection_meta n_card_desc n_card_size n_card_supp) (filter (has_type n_addressbook) ms)
+  | MSyncCollection => map spec_sync_meta (filter (fun x => negb (is_deletion x) && negb (is_self path x)) ms)
+  | _ => []
+  end.
+
 (** The error a failed call must carry when the failure is the HTTP status. *)
 Definition spec_status_error (m : meth) (r : hresp) : option cerr :=
   if negb (success (h_status r)) then Some (EHttp (h_status r) (spec_dav_error r))
@@ -901,3 +979,11 @@ Definition pairs_spec_ok (b : xmlbody) (o : option (list (cres unit))) : bool :=
     | _, _ => false
     end
   end.
+
+(** metadata verdicts (when the call returned a value): the implementation's per-object
+    metadata against the model's and against the specification's *)
+Definition meta_eqb (a b : list (list string)) : bool := list_eqb (list_eqb String.eqb) a b.
+Definition meta_agrees (m : meth) (path : string) (s : script) (o : list (list string)) : bool :=
+  meta_eqb (run_meta m path s) o.
+Definition meta_spec_ok (m : meth) (path : string) (s : script) (o : list (list string)) : bool :=
+  match s with Terr => false | Resp r => meta_eqb (spec_meta m path r) o end.
